@@ -12,9 +12,7 @@ if ! (cd "$scratch" && patch -p1 -s --no-backup-if-mismatch < "/verif/$p" >/dev/
   echo "SKIP  $id $short (does not apply)"; exit 0
 fi
 out=$(REPO_DIR="$scratch" VERIF_NOEVIDENCE=1 bin/govc check "$id" 2>&1); rc=$?
-if [[ "$p" == *.drift ]] && [ $rc -eq 2 ]; then
-  echo "OK    $id $short: UNDECIDED as expected (the patch removes identifiers the contract names: contract drift, not reported as a violation)"
-elif [ $rc -eq 1 ] && echo "$out" | grep -q "^VIOLATION property=$id"; then
+if [ $rc -eq 1 ] && echo "$out" | grep -q "^VIOLATION property=$id"; then
   echo "OK    $id $short: $(echo "$out" | grep -c '^VIOLATION') violation line(s); first: $(echo "$out" | grep '^VIOLATION' | head -1 | sed 's/.* obligation=//')"
 else
   echo "MISS  $id $short: exit $rc"; echo "$out" | tail -5 | sed 's/^/      /'
